@@ -179,24 +179,37 @@ def _refine_bound(mod, rep, f, prec):
     from .threads import loop_of
     est = f.reach(list(f.calls("%slacon_" % prec)), stop=lambda x: (x.callee or "").endswith("lacon_") or (x.callee or "").startswith("sp_%sgemv" % prec))
     cor = [c for c in f.calls("%sgstrs" % prec) if c.i not in est]
+    from .pivot import _cd_closure
+    IPRED = {"eq": lambda x, y: x == y, "ne": lambda x, y: x != y, "sgt": lambda x, y: x > y, "sge": lambda x, y: x >= y, "slt": lambda x, y: x < y, "sle": lambda x, y: x <= y,
+             "ugt": lambda x, y: x > y, "uge": lambda x, y: x >= y, "ult": lambda x, y: x < y, "ule": lambda x, y: x <= y}
+    # (predicate, value of the predicate on the edge) pairs that mean "a <= b, both ordered" (or stricter) / "a > b" (or a >= b)
+    LE = {("ole", True), ("olt", True), ("ugt", False), ("uge", False)}
+    GE = {("oge", True), ("ogt", True), ("ult", False), ("ule", False)}
     for n, c in enumerate(cor):
-        dom = f.dom()
         has_cnt = False; has_half = False; has_eps = False
-        for C in f.insts():
-            if C.bb.id not in dom[c.bb.id]:
+        for (a_, s_) in _cd_closure(f, c.bb.id):
+            t = f.blocks[a_].insts[-1]
+            if t.op != "br" or not t.ops or t.ops[0][0] != "v":
                 continue
-            if C.op == "icmp" and C.pred in ("slt", "sle") and any(is_const(o, 5) or is_const(o, 4) for o in C.ops):
-                for blk, t, fl in branch_edges_on(f, C):
-                    if t in dom[c.bb.id] or t == c.bb.id:
-                        has_cnt = True
-            if C.op == "fcmp" and C.pred in ("ole", "olt"):
-                a = C.ops[0]
-                if a[0] == "v" and f.inst[a[1]].op == "fmul" and any(o[0] == "f" and o[1] == 2.0 for o in f.inst[a[1]].ops):
+            C = f.inst[t.ops[0][1]]
+            val = (s_ == f.blocks[a_].succ[0].id)            # truth value of the condition on the edge towards the correction
+            if C.op == "icmp" and C.pred in IPRED:
+                ops = [strip_casts(f, o) for o in C.ops]
+                for k in (0, 1):
+                    if ops[1 - k][0] == "c" and ops[k][0] == "v":
+                        K = ops[1 - k][1]
+                        ev = (lambda v: IPRED[C.pred](v, K)) if k == 0 else (lambda v: IPRED[C.pred](K, v))
+                        allowed = [v for v in (0, 1, 4, 5, 6, 1 << 20) if ev(v) == val]
+                        if 0 in allowed and 4 in allowed and 5 not in allowed and (1 << 20) not in allowed:
+                            has_cnt = True                  # the iteration counter is < ITMAX (= 5) on this edge
+            if C.op == "fcmp":
+                o0, o1 = strip_casts(f, C.ops[0]), strip_casts(f, C.ops[1])
+                def twice(o):
+                    return o[0] == "v" and f.inst[o[1]].op == "fmul" and any(z[0] == "f" and z[1] == 2.0 for z in f.inst[o[1]].ops)
+                if (twice(o0) and (C.pred, val) in LE) or (twice(o1) and (C.pred, val) in GE):
                     has_half = True
-            if C.op == "fcmp" and C.pred in ("ogt", "oge"):
-                has_eps = True
-        # count incremented in the continue branch
-        inc = [i for i in f.insts() if i.op == "add" and any(is_const(o, 1) for o in i.ops) and i.bb.id in (c.bb.id,) or (i.op == "add" and f.dominates(c, i) and any(is_const(o, 1) for o in i.ops) and i.ty == "i32" and i.bb is c.bb)]
+                elif not twice(o0) and not twice(o1) and ((C.pred, val) in GE or (C.pred, val) in LE):
+                    has_eps = True
         rep.check(has_cnt and has_half and has_eps, "GSRFS", "%s#refine-bound%d" % (f.name, n), "correction guarded by berr>eps, berr*2<=lstres, count<ITMAX",
                   "refinement loop guard incomplete: count<ITMAX=%s halving=%s eps=%s" % (has_cnt, has_half, has_eps), c.loc, f.name)
     # per-column reset of count and lstres: the phi of count in the refinement loop header starts at 0 from inside the per-rhs loop
